@@ -251,7 +251,7 @@ class C09:
             s = ctx.summ.of_func(MET, fname)
             site = f"{file}:{s.node.lineno} {fname}"
             t = s.returns[0].term if len(s.returns) == 1 else None
-            if t is not None and t[0] == "call" and t[1] == sk("average_precision_score") and callkw(t).get("average") == ("const", avg):
+            if t is not None and t[0] == "call" and t[1] == sk("average_precision_score") and callkw(t).get("average", ("const", "macro")) == ("const", avg):
                 ctx.ok("R09.3", site, f"average_precision_score(average={avg!r})")
             else:
                 ctx.bad("R09.3", file, fname, f"return {show(t)[:100] if t else '-'}",
